@@ -45,13 +45,22 @@ Theorem C02_blocked_write_no_reply : forall relay bs, In Hang bs ->
 Proof. exact blocked_write_no_reply. Qed.
 Print Assumptions C02_blocked_write_no_reply.
 
-(* Any failed write (QueueError with or without a reply of any code, or any
-   other exception), at any position, once all writes have completed: the
-   client gets 4xx/5xx on both edges. *)
+(* Any failed write - QueueError with or without a reply of any code, an
+   Exception subclass (OSError, backend client error), gevent.Timeout or any
+   other BaseException-only class (GreenletExit of a killed write) - at any
+   position, once all writes have completed: the client is never acknowledged.
+   It gets 4xx/5xx on both edges, or - only when a write ended in a
+   BaseException-only class - no answer at all because the exception leaves the
+   edge (SMTP: session over, socket closed without a reply; WSGI: the
+   application raises and the WSGI server answers 500).  (That no exception of
+   any family is taken for a queue id is part of the 2xx theorems above: 2xx
+   implies every write is `Done d WId`.) *)
 Theorem C02_error_gives_4xx5xx : forall relay bs,
   ~ In Hang bs -> (exists b, In b bs /\ failed_write b = true) ->
-  (exists tr c, smtp_run relay bs = (tr, Replied c) /\ is_error c = true) /\
-  (exists tr s, wsgi_run relay bs = (tr, Replied s) /\ (s / 100 = 4 \/ s / 100 = 5)).
+  refused smtp_err (snd (smtp_run relay bs)) /\
+  refused http_err (snd (wsgi_run relay bs)) /\
+  (snd (smtp_run relay bs) = Dropped \/ snd (wsgi_run relay bs) = Dropped ->
+   exists b, In b bs /\ base_only b = true).
 Proof. exact error_gives_4xx5xx. Qed.
 Print Assumptions C02_error_gives_4xx5xx.
 
